@@ -187,18 +187,18 @@ theorem connMessageV1_plain (crc : Bytes → Nat) (hcrc : ∀ b, crc b < M32) (d
   simp only [connMessageV1, connHeaderV1_encMsg crc hcrc m h rest, connCodecOf_eq, hc, if_true, connPlainV1_spec m h rest]
 
 theorem connMessageV1_wrapper (c : Crcs) (h1 : ∀ b, c.ieee b < M32) (dec : Int → Bytes → Option Bytes)
-    (m : Msg) (inner : List Msg) (h : GoodWrapper c dec m inner) (hkey : m.key = none) (rest : Bytes) :
+    (m : Msg) (inner : List Msg) (h : GoodWrapper c dec m inner) (rest : Bytes) :
     connMessageV1 dec (encMsg c.ieee m ++ rest) = some (wrapperRecs m inner, rest) := by
   obtain ⟨v, hv, hd⟩ := h.value
   have hvl : 2 * optLen m.value < M32 := by have := h.wf.2.2.2.2.2; omega
+  have hkl : 2 * optLen m.key < M32 := by have := h.wf.2.2.2.2.2; omega
   have hvr : InRange M32 (v.length : Int) := by unfold InRange; simp [hv, optLen] at hvl; omega
   have hin := connInner_encSet c h1 inner (fun x hx => (h.innerWF x hx).1) (encSet c (inner.map Entry.msg)).length
     (by have := encSet_length_ge c (inner.map Entry.msg); simpa using this)
-  have h4 : (i32 (-1)).length = 4 := i32_length _
   have hnn : ¬ ((v.length : Int) < 0) := by omega
-  simp only [connMessageV1, connHeaderV1_encMsg c.ieee h1 m h.wf rest, connCodecOf_eq, h.codec, if_false, hkey, hv, nbytes,
-    List.append_assoc]
-  rw [← h4, takeN_append]
+  simp only [connMessageV1, connHeaderV1_encMsg c.ieee h1 m h.wf rest, connCodecOf_eq, h.codec, if_false,
+    connBytes_nbytes m.key _ hkl]
+  simp only [hv, nbytes, List.append_assoc]
   have hon : (decide (m.magic = 1) && logAppend m.attributes) = logAppend m.attributes := by simp [h.magic]
   simp only [readI32_i32 _ _ hvr, hnn, if_false, Int.toNat_natCast, takeN_append, hd, hin, lastOffsetOf_map,
     wrapperRecs, List.map_map, connLogAppendV1_eq, hon]
@@ -222,7 +222,7 @@ theorem flatMap_visible (gs : List (Bool × List Rec)) : gs.flatMap visible = su
 
 theorem connStep_entry (c : Crcs) (h1 : ∀ b, c.ieee b < M32) (h2 : ∀ b, c.castagnoli b < M32)
     (dec : Int → Bytes → Option Bytes) (e : Entry) (g : Bool × List Rec) (hg : GoodEntry c dec e g)
-    (hkey : ∀ m, e = .msg m → codecOf m.attributes ≠ 0 → m.key = none) (rest : Bytes) (fuel : Nat) :
+    (rest : Bytes) (fuel : Nat) :
     connReadSet dec (fuel + 1) (encEntry c e ++ rest) =
       (connReadSet dec fuel rest).map (fun t => visible g ++ t) := by
   cases hbs : encEntry c e ++ rest with
@@ -256,12 +256,12 @@ theorem connStep_entry (c : Crcs) (h1 : ∀ b, c.ieee b < M32) (h2 : ∀ b, c.ca
     | wrapper m inner hw =>
       obtain ⟨b, hb, hne⟩ := magicOf_encMsg c.ieee m rest hw.wf.2.1
       simp only [magicOf] at hb
-      simp only [encEntry, hb, hne, if_false, connMessageV1_wrapper c h1 dec m inner hw (hkey m rfl hw.codec) rest]
+      simp only [encEntry, hb, hne, if_false, connMessageV1_wrapper c h1 dec m inner hw rest]
       cases connReadSet dec fuel rest <;> rfl
 
 theorem connReadSet_encSet (c : Crcs) (h1 : ∀ b, c.ieee b < M32) (h2 : ∀ b, c.castagnoli b < M32)
     (dec : Int → Bytes → Option Bytes) (es : List Entry) (gs : List (Bool × List Rec)) (h : AllGood c dec es gs)
-    (hkey : ∀ m, Entry.msg m ∈ es → codecOf m.attributes ≠ 0 → m.key = none) (fuel : Nat) (hf : es.length ≤ fuel) :
+    (fuel : Nat) (hf : es.length ≤ fuel) :
     connReadSet dec fuel (encSet c es) = some (surfaced gs) := by
   rw [← flatMap_visible]
   induction h generalizing fuel with
@@ -271,8 +271,8 @@ theorem connReadSet_encSet (c : Crcs) (h1 : ∀ b, c.ieee b < M32) (h2 : ∀ b, 
     | zero => simp at hf
     | succ fuel =>
       simp only [encSet]
-      rw [connStep_entry c h1 h2 dec _ _ hg (fun m hm hc => hkey m (by simp [hm]) hc)]
-      rw [ih (fun m hm hc => hkey m (by simp [hm]) hc) fuel (by simp only [List.length_cons] at hf; omega)]
+      rw [connStep_entry c h1 h2 dec _ _ hg]
+      rw [ih fuel (by simp only [List.length_cons] at hf; omega)]
       simp
 
 end KV.Model.ConnReader
